@@ -7,7 +7,9 @@ Open Scope Z_scope.
 Definition seven_days_ms : Z := 7 * 24 * 60 * 60 * 1000.
 
 (* a uint64 millisecond timestamp read the way Timestamp.Time reads it (as an int64) *)
-Definition signed_ms (u : Z) : Z := if u <? 2 ^ 63 then u else u - 2 ^ 64.
+Definition p63 : Z := 9223372036854775808.      (* 2^63, see pow_literals in Keys/MapFacts.v *)
+Definition p64 : Z := 18446744073709551616.     (* 2^64 *)
+Definition signed_ms (u : Z) : Z := if u <? p63 then u else u - p64.
 
 (* validity of a key (expired_ts, valid_until_ts) at [atts]; now_ns = wall clock in ns.
    expired key: strictly before expired_ts; otherwise lenient: always; strict: a validity period
@@ -19,7 +21,7 @@ Definition valid_at_spec (strict : bool) (now_ns expired valid_until atts : Z) :
        && (signed_ms atts <=? signed_ms valid_until)
        && (signed_ms atts * 1000000 <=? now_ns + seven_days_ms * 1000000).
 
-(* a stored key is "held inside its validity" (no refetch): expired keys never change; a current
+(* a stored key is held inside its validity (no refetch): expired keys never change; a current
    key is refetched once now (ms) has reached valid_until_ts *)
 Definition db_key_final (now_ns expired valid_until : Z) : bool :=
-  negb (expired =? 0) || ((now_ns / 1000000) mod 2 ^ 64 <? valid_until).
+  negb (expired =? 0) || ((now_ns / 1000000) mod p64 <? valid_until).
